@@ -277,6 +277,12 @@ def judge_v2(op, g, sp, out, full):
         out.add("C09", "the metric fields read after the object was queried are not the ones read before (they no longer are what the vector says)")
     if full:
         judge_state_v2(op, g, out)
+    if g.get("r") == "1" and len(op) == 3 and op[0] in ("D2", "S2", "N2"):
+        # C10 (v2): whatever a decoder accepts, the encoding of the object it returns is byte-identical to the input — also when
+        # the grammar rejects the input (that the decoder accepted it is C08's violation, that its String() is another text C10's)
+        enc0 = _split(g, "enc")
+        if L < len(enc0) and enc0[L].endswith("|-") and enc0[L] != op[2] + "|-":
+            out.add("C10", "accepted, but the encoding %s is not byte-identical to the input %s" % (_show(enc0[L]), _show(op[2] + "|-")))
     if g.get("r") != "1" or sp.get("acc") != "1":
         return
     s = _split(g, "s")
